@@ -16,9 +16,15 @@ func init() {
 		ID: "C13", Level: "other", Patterns: []string{"./internal/flood"},
 		Technique: "value provenance of the Metric field over go/ssa (literals, parameters resolved to call sites, backward slices)",
 		Explain: "Decides, for every route record built by routing.Manager from a received announcement, that its Metric is the received metric plus a positive constant (or the path length); that the routes placed in a forwarded RouteAdvertise carry a metric that was incremented for the hop just taken (forwarding the received slice unchanged is the violation); and that full-table replays and origin announcements send the stored metric unmodified (presence routes: 0). " +
-			"Saturation at 65535 and the choice of the configured base metric of local routes are not covered.",
+			"The preference clause (nearer exit first at equal prefix) is carried as C13.R5 = the C08 ordering/lookup obligations for the CIDR table. Saturation at 65535 and the choice of the configured base metric of local routes are not covered.",
 		Run: runC13,
 		SelfTests: []SelfTest{
+			{Name: "CIDR bucket not re-sorted after an update with a higher metric (seed C13-d class)", ExpectRule: "C13.R5", ExpectKey: "AddRoute bucket replace", Edits: []Edit{
+				{File: "internal/routing/table.go", Old: "\t\t\t\tt.routes[key][i] = cloned\n\t\t\t\tt.sortRoutes(key)\n", New: "\t\t\t\tt.routes[key][i] = cloned\n"},
+			}},
+			{Name: "CIDR bucket not re-sorted after an insertion", ExpectRule: "C13.R5", ExpectKey: "AddRoute bucket insert", Edits: []Edit{
+				{File: "internal/routing/table.go", Old: "\tt.routes[key] = append(t.routes[key], cloned)\n\tt.sortRoutes(key)\n", New: "\tt.routes[key] = append(t.routes[key], cloned)\n"},
+			}},
 			{Name: "increment removed on receipt (CIDR)", ExpectRule: "C13.R1", ExpectKey: "ProcessRouteAdvertise", Edits: []Edit{
 				{File: "internal/routing/manager.go", Old: "\t\t\tMetric:      entry.Metric + 1, // Increment metric\n\t\t\tPath:        path,\n\t\t\tEncPath:     encPath,\n\t\t\tSequence:    sequence,\n\t\t}\n\n\t\tif m.table.AddRoute(route) {", New: "\t\t\tMetric:      entry.Metric,\n\t\t\tPath:        path,\n\t\t\tEncPath:     encPath,\n\t\t\tSequence:    sequence,\n\t\t}\n\n\t\tif m.table.AddRoute(route) {"},
 			}},
@@ -326,6 +332,7 @@ func runC13(p *kit.Program, r *kit.Report) {
 	r.Rule("C13.R2", "the routes of a forwarded RouteAdvertise carry a Metric that was incremented by a constant k>=1 for the hop just taken (unless receivers derive the metric from the path length)")
 	r.Rule("C13.R4", "a stored route record is never refreshed in place with the Metric of a newer advertisement while Path/EncPath keep the older one (Metric, Sequence, Path, EncPath, NextHop change together)")
 	r.Rule("C13.R3", "full-table replays and origin announcements send the stored Metric field unmodified (constant 0 for the origin's own presence)")
+	c13Preference(p, r)
 	cx := newC11Flood(p, r)
 	if cx == nil {
 		return
